@@ -538,6 +538,10 @@ def run_engine(S, case):
     out = _np_out(S.outputs(raw))
     if n == 1:
         labels.append("n1-value")
+    if info.get("tie") and not info.get("skip_value"):
+        # exactly tied online maximisers (double-DQN family): any tied action is admissible per sample
+        ref, info, tie_labels = S.resolve_ties(ns, mods, out, ref, info)
+        labels += tie_labels
     for name, (rv, scale) in ref.items():
         ov = out[name]
         if name in S.per_sample:
@@ -812,6 +816,29 @@ DISCRETE_EXTRA = [
 ]
 
 
+TIE_FRAC = 0.28          # share of double-DQN cases whose online maximiser is exactly tied in some rows
+TIE_ENUM_CAP = 100000    # admissible selections enumerated at most (fallback of DiscreteSetup.resolve_ties)
+
+
+def _tie_spec(r, cfg):
+    """Exact ties of the ONLINE network's maximal Q-value at successor observations (double-DQN family; the
+    target network stays generic, so its values at the tied actions differ).
+
+    'all'   : zero output kernel and equal output biases - every action ties in every row (what a
+              zero-initialised last layer gives);
+    'const' : the output units ``cols`` get a zero kernel column and one common bias, placed between the row maxima
+              of the other units so that the tied group is the maximiser in 1 + floor(frac L) of the L
+              non-terminated rows;
+    'dup'   : the output units ``cols[1:]`` are copies of unit ``cols[0]`` (same kernel column, same bias: the
+              tied value depends on the observation), with a common bias offset placed in the same way."""
+    u = r.random()
+    if u < 0.2:
+        return {"mode": "all"}
+    k = 3 if (cfg["na"] >= 4 and r.random() < 0.3) else 2
+    cols = [int(x) for x in r.permutation(cfg["na"])[:k]]
+    return {"mode": "const" if u < 0.55 else "dup", "cols": cols, "frac": _f32(r.random())}
+
+
 def discrete_builder(kind):
     def build(r):
         cfg = _pick_cfg(r, DISCRETE_POOL, DISCRETE_EXTRA)
@@ -820,6 +847,8 @@ def discrete_builder(kind):
         if kind == "ddqn_per":
             c["is_ratio"] = ([1.0] * cfg["n"] if r.random() < 0.2
                              else [_f32(x) for x in r.uniform(1e-3, 1.0, cfg["n"])])
+        if kind in ("ddqn", "ddqn_per"):
+            c["tie"] = _tie_spec(r, cfg) if r.random() < TIE_FRAC else None
         return c
     return build
 
@@ -855,7 +884,42 @@ class DiscreteSetup(Setup):
         q = ns.mlp(cfg["do"], cfg["na"], cfg["hidden"], c["act"], c["pseed"], c["pscale"])
         if self.kind == "dqn":
             return (q,)
+        if c.get("tie") and self.kind in ("ddqn", "ddqn_per"):
+            self._tie_online(q, c["tie"])
         return (q, ns.mlp(cfg["do"], cfg["na"], cfg["hidden"], c["act"], c["pseed"] + 1, c["pscale"]))
+
+    def _tie_online(self, q, tie):
+        """Make output units of the online network exactly equal (see _tie_spec); pure function of the case."""
+        ns = L()
+        out = q.output_layer
+        K, B = np.array(out.kernel.value), np.array(out.bias.value)
+        na = B.shape[0]
+
+        def put():
+            out.kernel.value = ns.jnp.asarray(K)
+            out.bias.value = ns.jnp.asarray(B)
+
+        if tie["mode"] == "all":
+            K[:] = 0.0
+            B[:] = B[0]
+            return put()
+        cols = [int(a) for a in tie["cols"]]
+        src = cols[0]
+        rest = [a for a in range(na) if a not in cols]
+        K[:, cols] = 0.0 if tie["mode"] == "const" else K[:, [src]]
+        B[cols] = B[src]
+        put()
+        if not rest:
+            return None
+        # level of the tied group: it is the row maximum in k of the L non-terminated rows
+        Qn = F(q(self.farrs["next_observation"]))
+        live = np.asarray(self.case["term"]) == 0
+        rows = live if live.any() else np.ones_like(live)
+        d = np.sort((Qn[:, rest].max(1) - Qn[:, src])[rows])
+        k = 1 + int(float(tie["frac"]) * (len(d) - 1))  # 1 .. L-1 (L when L = 1): some, not all, live rows tie
+        shift = 0.5 * (d[k - 1] + d[k]) if k < len(d) else d[-1] + 0.25 * max(_mag(Qn), 1e-3)
+        B[cols] = np.float32(float(B[src]) + shift)
+        return put()
 
     def outputs(self, raw):
         if self.kind == "ddqn_per":
@@ -873,38 +937,120 @@ class DiscreteSetup(Setup):
         rows = np.arange(n)
         labels = []
         skip = False
+        r = F(a["reward"])
+        t = F(i["termination"])
+        g = float(np.float32(self.case["gamma"]))
+        pred = Q[rows, i["action"]]
+        w = F(a["is_ratio"]) if self.kind == "ddqn_per" else np.ones(n)
+        scale = max(_mag(r, Q, Qn, Qtn), 1e-6)
+        sel, tie, tie_nt = None, None, False
         if self.kind == "dqn":
             boot = Qn.max(1)
         elif self.kind == "nature_dqn":
             boot = Qtn.max(1)
         else:
-            sel = Qn.argmax(1)
+            sel = Qn.argmax(1)  # first maximiser; resolve_ties replaces it in exactly tied rows
             boot = Qtn[rows, sel]
-            srt = np.sort(Qn, axis=1)
-            gap = srt[:, -1] - srt[:, -2]
+            top = Qn.max(1)
+            tied = Qn == top[:, None]  # exact ties of the float32 outputs: every tied action is an admissible selection
+            below = np.where(tied, -np.inf, Qn).max(1)  # largest Q-value strictly below the row maximum
             live = np.asarray(i["termination"]) == 0
-            if np.any(live & (gap <= 1e-4 * (1e-30 + np.abs(srt[:, -1])))) and self.case["gamma"] != 0:
+            if np.any(live & (top - below <= 1e-4 * (1e-30 + np.abs(top)))) and self.case["gamma"] != 0:
                 skip = True
                 labels.append("argmax-near-tie")
             # the double-Q selection matters only where it differs from the target net's own arg-max
             dif = live & (sel != Qtn.argmax(1))
             labels.append("selection!=target-argmax" if np.any(dif) else "selection==target-argmax")
-        r = F(a["reward"])
-        t = F(i["termination"])
-        g = float(np.float32(self.case["gamma"]))
-        bterm = (1.0 - t) * g * boot
-        y = r + bterm
-        pred = Q[rows, i["action"]]
-        w = F(a["is_ratio"]) if self.kind == "ddqn_per" else np.ones(n)
-        scale = max(_mag(r, Q, Qn, Qtn), 1e-6)
-        ref = {"loss": (np.mean(w * (pred - y) ** 2), scale ** 2), "q_mean": (np.mean(pred), scale)}
-        if self.kind == "ddqn_per":
-            ref["td_error_mean"] = (np.mean(np.abs(pred - y)), scale)
+            trows = [int(k) for k in np.nonzero(live & (tied.sum(1) >= 2))[0]] if self.case["gamma"] != 0 else []
+            if trows:
+                cands = [np.nonzero(tied[k])[0] for k in trows]
+                spread = max(float(np.ptp(Qtn[k, c])) for k, c in zip(trows, cands))
+                tie_nt = spread > 1e-3 * scale  # the choice among the tied actions changes the target
+                labels += ["online-max-tie", "online-max-tie:targets-differ" if tie_nt else "online-max-tie:targets-equal",
+                           "online-max-tie:all-live-rows" if len(trows) == int(live.sum()) else "online-max-tie:some-live-rows",
+                           "online-max-tie:%d-way" % max(len(c) for c in cands)]
+                tie = {"rows": trows, "cands": cands, "scale": scale, "pred": pred,
+                       "ycand": r[:, None] + (1.0 - t)[:, None] * g * Qtn}
+            elif self.case.get("tie"):
+                labels.append("online-max-tie-moot")
+            if self.case.get("tie"):
+                labels.append("tie-mode:" + self.case["tie"]["mode"])
+
+        def assemble(boot_):
+            bterm_ = (1.0 - t) * g * boot_
+            y_ = r + bterm_
+            ref_ = {"loss": (np.mean(w * (pred - y_) ** 2), scale ** 2), "q_mean": (np.mean(pred), scale)}
+            if self.kind == "ddqn_per":
+                ref_["td_error_mean"] = (np.mean(np.abs(pred - y_)), scale)
+            return ref_, y_, bterm_
+
+        ref, y, bterm = assemble(boot)
         nt, labs = _bootstrap_nt(i["termination"], bterm, y)
         if self.kind in ("ddqn", "ddqn_per"):
-            nt = nt and "selection!=target-argmax" in labels
+            nt = nt and ("selection!=target-argmax" in labels or tie_nt)
+        if tie is not None:
+            tie.update(sel=sel, assemble=lambda sel_: assemble(Qtn[rows, sel_]))
         return ref, {"y": y, "w": w, "labels": labels + labs, "nontrivial": nt and not skip, "skip_value": skip,
-                     "ignored_rows": np.nonzero(i["termination"])[0].tolist()}
+                     "ignored_rows": np.nonzero(i["termination"])[0].tolist(), "tie": tie}
+
+    def resolve_ties(self, ns, mods, out, ref, info):
+        """Rows whose online maximiser is exactly tied: the documented bootstrap Q'(o', argmax_a Q(o', a)) admits any
+        of the tied actions, per sample.  Decide which admissible selection the library took in each such row and
+        rebuild the reference (and the constant target of the gradient clause) from these selections; all clauses
+        keep their tolerances.
+
+        The loss has no per-sample output, but d loss / d reward_i = -2 w_i (Q(o_i, a_i) - y_i) / N carries the signed
+        TD error of row i: where this gradient reproduces the library's own loss (and mean |TD error|), each tied
+        row takes the admissible action whose TD error is nearest, and that TD error must agree
+        (``<sub>.value.tie_selection``: the sample's target belongs to none of the tied maximisers).  An
+        implementation that passes no gradient to the reward is resolved by enumeration: the admissible combination
+        (at most TIE_ENUM_CAP) that reproduces the scalar outputs best.
+        -> (ref, info, labels)"""
+        T = info["tie"]
+        n, sub, scale, w = self.n, self.name, T["scale"], info["w"]
+        trows, cands, pred, ycand = T["rows"], T["cands"], T["pred"], T["ycand"]
+        sel = np.array(T["sel"], copy=True)
+        per = self.kind == "ddqn_per"
+        _, ga = ns.jit_grad(self.call)(mods, self.farrs, self.iarrs, self.sc, self.static)
+        gr = F(ga["reward"]).reshape(-1)
+        e = None
+        if gr.shape == (n,) and np.all(np.isfinite(gr)) and np.any(gr != 0):
+            e = -n * gr / (2.0 * w)
+            if not (close(np.mean(w * e ** 2), out["loss"], scale=scale ** 2, rel=2e-4, abs_=1e-5)
+                    and (not per or close(np.mean(np.abs(e)), out["td_error_mean"], scale=scale, rel=2e-4, abs_=1e-5))):
+                e = None
+        if e is not None:
+            how = "reward-gradient"
+            for k, c in zip(trows, cands):
+                td = pred[k] - ycand[k, c]
+                j = int(np.argmin(np.abs(td - e[k])))
+                sel[k] = int(c[j])
+                check(abs(td[j] - e[k]) <= 1e-5 * scale + 2e-4 * abs(td[j]), f"{sub}.value.tie_selection",
+                      lambda: f"row {k}: the online maximiser is tied between actions {c.tolist()}, admissible TD errors "
+                              f"{td.tolist()} (targets {ycand[k, c].tolist()}), but d loss / d reward gives TD error "
+                              f"{float(e[k])!r} (scale {scale:.4g}, n={n})")
+        else:
+            total = 1
+            for c in cands:
+                total *= len(c)
+            if total > TIE_ENUM_CAP:
+                return ref, info, ["tie-unresolved"]
+            how = "enumeration"
+            import itertools
+            idx = np.asarray(list(itertools.product(*[c.tolist() for c in cands])), dtype=int)  # (C, R)
+            Y = np.repeat(ycand[np.arange(n), sel][None, :], len(idx), axis=0)
+            Y[:, trows] = ycand[np.asarray(trows)[None, :], idx]
+            TD = pred[None, :] - Y
+            lo = np.mean(w[None, :] * TD ** 2, axis=1)
+            miss = np.abs(lo - float(out["loss"])) / (1e-5 * scale ** 2 + 2e-4 * np.abs(lo))
+            if per:
+                tm = np.mean(np.abs(TD), axis=1)
+                miss = np.maximum(miss, np.abs(tm - float(out["td_error_mean"])) / (1e-5 * scale + 2e-4 * np.abs(tm)))
+            sel[trows] = idx[int(np.argmin(miss))]
+        ref2, y2, _ = T["assemble"](sel)
+        first = bool(np.all(sel == T["sel"]))
+        return ref2, dict(info, y=y2), ["tie-resolved:" + how,
+                                        "tie-selection:first-maximiser" if first else "tie-selection:other-maximiser"]
 
     def consts(self, info):
         return {"observation": self.farrs["observation"], "action": self.iarrs["action"],
